@@ -158,6 +158,7 @@ CASES = [
     ("der(a.x)", ((None,), (2,)), (2, 1), False),
     ("der(w)", ((3, 2),), (3, 2), False),
     ("_pymoca_delay_0", (2, 1), (2, 1), True),
+    ("_pymoca_delay_1", (2, 3), (2, 3), True),          # a delayed 2-D array expression
     ("s", ((None,),), (1, 1), False),
 ]
 
@@ -177,14 +178,15 @@ def expected_name(name, mshape, ind, delay):
     return pre + ".".join(out) + post
 
 
-def h_expand(eng):
+def h_expand(eng, cases=None):
     install(eng)
     mm = eng.load_module(MODEL)
     cls = eng.module_global(mm, "Model")
     dv = eng.module_global(mm, "_DefaultValue")
     dv.constructor = lambda eng, c, a, k: VObj(c, {"value": a[0] if a else 0})
     f = eng.find_function(MODEL, "Model._expand_vectors")
-    name, mshape, cshape, delay = CASES[eng.choice(len(CASES))]
+    cases = cases if cases is not None else CASES
+    name, mshape, cshape, delay = cases[eng.choice(len(cases))]
     group = ["states", "alg_states", "inputs"][eng.choice(3)] if not delay else "inputs"
     if name.startswith("der("):
         group = "der_states"
@@ -278,8 +280,15 @@ def h_expand(eng):
         pos = [ds.index(w) if w in ds else -1 for w in want]
         eng.prove("expand.delay_states_renamed_element_by_element", z3.BoolVal(sorted(ds) == sorted(["d_other[1,1]"] + want) and
                                                                                  pos == list(range(pos[0], pos[0] + len(want)))))
+        def element(key):
+            # which (row, column) of the delayed expression a subscript selects: a pair is (row, column); a single integer counts the
+            # elements of an MX column by column (CasADi's linear indexing)
+            if isinstance(key, tuple) and len(key) == 2:
+                return tuple(key)
+            k_ = key[0] if isinstance(key, tuple) else key
+            return (k_ % cshape[0], k_ // cshape[0]) if isinstance(k_, int) else None
         okd = len(items) == len(ds) and all(0 <= p < len(items) and isinstance(items[p].fields.get("expr"), Elem) and items[p].fields["expr"].mat is dexpr and
-                                            tuple(items[p].fields["expr"].key if isinstance(items[p].fields["expr"].key, tuple) else (items[p].fields["expr"].key,)) == tuple(ind)
+                                            element(items[p].fields["expr"].key) == tuple(ind)
                                             and items[p].fields.get("duration") == "dur" for p, ind in zip(pos, inds))
         eng.prove("expand.delay_arguments_follow_the_same_order", z3.BoolVal(bool(okd)))
 
